@@ -124,7 +124,7 @@ class Gen:
                    ("dest", 2), ("cleanup", 2), ("drop", 1), ("call", 5), ("rmcall", 2), ("sweep", 3), ("sent", 4),
                    ("rmsent", 2), ("rmcalln", 1), ("rmall", 1), ("newfun", 4), ("fill", 3), ("inp", 4), ("input", 3), ("deadcall", 3),
                    ("newobjr", 3), ("replace", 3)]
-        choices += [("newmstr", 4), ("sappend", 4), ("sjoin", 3), ("sadd", 3), ("schar", 4)]
+        choices += [("newmstr", 4), ("sappend", 4), ("sjoin", 3), ("sadd", 3), ("schar", 4), ("saddl", 2), ("sadd2", 3)]
         if m == "unit":
             choices += [("newstr", 6), ("push", 6), ("pushr", 3), ("pop", 6), ("popto", 3), ("oref", 3),
                         ("clones", 2), ("unclone", 2), ("unload", 1 if self.late else 0), ("reclaimu", 0 if self.cyclic else 3)]
@@ -338,6 +338,13 @@ class Gen:
                 c.items = {i: S[t] for i in range(n)}
             S[d] = c
             self.emit("fill %d %d %d" % (d, n, t))
+        elif k in ("saddl", "sadd2"):
+            a = self.pick_slot(("str",))
+            t = self.pick_slot(("str",))
+            dd = r.below(NSLOT)
+            if S[a] is not None and S[a].kind == "str" and (k == "saddl" or (S[t] is not None and S[t].kind == "str")):
+                S[dd] = self.new("str", S[a].size + (1 if k == "saddl" else S[t].size))
+            self.emit("saddl %d %d %d" % (dd, a, r.range(1, 9)) if k == "saddl" else "sadd2 %d %d %d" % (dd, a, t))
         elif k in ("sappend", "sjoin", "sadd", "schar", "srange"):
             # strings are values: the target gets a new string, every other holder keeps its text
             d = self.pick_slot(("str",))
@@ -564,7 +571,7 @@ class C06(Prop):
                 "NV.C06.program_alive_while_referenced", "NV.C06.prog_ref_eq_holders", "NV.C06.unreferenced_is_deallocated",
                 "NV.C06.holders_eq_H", "NV.C06.run_DE", "NV.C06.oracle_ref_clause", "NV.C06.oracle_freed_clause", "NV.C06.oracle_leak_clause",
                 "NV.C06.oracle_string_clauses", "NV.C06.arrBytes_matches", "NV.C06.collect1_fix", "NV.C06.oracle_accepts_model_state",
-                "NV.C06.sweep_runs_every_pending_call_once", "NV.C06.sizes_exact", "NV.C06.wc_meaning", "NV.C06.run_w",
+                "NV.C06.sweep_runs_every_pending_call_once", "NV.C06.sizes_exact", "NV.C06.join_on_copy_never_inplace", "NV.C06.wc_meaning", "NV.C06.run_w",
                 "NV.C06.widths_agree", "NV.C06.ref_eq_holders", "NV.C06.no_free_while_held",
                 "NV.C06.primitives_preserve_invariant", "NV.C06.string_never_freed_while_held", "NV.C06.string_cells_never_freed_while_held",
                 "NV.C06.string_saturates", "NV.C06.no_inplace_modification_while_shared", "NV.C06.extendInPlace_sole",
@@ -869,12 +876,13 @@ class C06(Prop):
         for mode in ("unit", "lpc"):
             for name, last in (("65535", "fill 5 9533 0"), ("65536", "fill 5 9534 0"), ("70000", "fill 5 13998 0")):
                 head = ["newmstr 0 abc"] + big + [last, "assign 6 0"]      # holders = 2 + 56000 + n
-                mods = ["sappend 6 7", "assign 6 0", "sjoin 6 0", "sadd 7 0 5", "assign 8 0", "schar 8 0 z", "aget 9 1 0",
+                mods = ["sappend 6 7", "assign 6 0", "sjoin 6 0", "sadd 7 0 5", "saddl 7 0 4", "sadd2 7 0 0", "sadd2 7 6 0", "assign 8 0", "schar 8 0 z", "aget 9 1 0",
                         "assign 8 0", "schar 8 2 y"]
                 if mode == "lpc":
                     mods += ["assign 8 0", "srange 8 0 1 QQQ", "assign 8 0", "srange 8 1 2 RR", "aget 9 2 7"]
                 mk("string-%s-holders-modify-%s" % (name, mode), mode, head + mods + rel + ["free 6", "free 7", "free 8", "free 9"])
-            mk("string-values-" + mode, mode, ["newmstr 0 ab", "sappend 0 1", "assign 1 0", "sappend 1 2", "sjoin 0 1", "sjoin 1 1",
+            mk("string-values-" + mode, mode, ["newmstr 0 ab", "sappend 0 1", "assign 1 0", "sappend 1 2", "sjoin 0 1", "sjoin 1 1", "saddl 5 0 7",
+                                               "sadd2 5 0 1", "sadd2 0 0 0", "sadd2 1 5 1",
                                                "sadd 2 0 3", "schar 2 0 x", "assign 3 2", "schar 3 1 y", "newarr 4 2", "aset 4 0 3",
                                                "schar 3 0 w", "aget 5 4 0", "free 0", "free 1", "free 2", "free 3", "free 4", "free 5"])
             # arrays are references: one holder's element store is seen by all (sanity, 32-bit counters)
